@@ -20,3 +20,11 @@ Example c02_nonvacuous :
   exists a b, enc_prim 4325377 (VInt (-2)) = Some a /\ enc_prim 4325377 (VText [97; 98; 99]) = Some b
               /\ wf_prim (fun _ => true) (VInt (-2)) = true.
 Proof. eexists; eexists; repeat split; vm_compute; reflexivity. Qed.
+
+(* ---- structure writers: everything the schema interpreter emits is well-formed TTLV ---- *)
+From PK Require Import Codec.Schema Codec.SchemaProofs.
+Theorem c02_wr_wf : forall E v, env_ok E = true ->
+  forall fuel tag k x bs, tag_ok tag = true -> wfv E v fuel k x = true ->
+  wr E v fuel tag k x = Some bs -> wf_item bs.
+Proof. exact wr_wf. Qed.
+Print Assumptions c02_wr_wf.
